@@ -362,5 +362,5 @@ def run(acc, tier):
         engine.pmap(acc, shard_generated, extra=(400, 60))
     else:
         engine.pmap(acc, shard_exhaustive, extra=(5,))
-        engine.pmap(acc, shard_generated, extra=(5000, 600))
-        engine.fuzz(acc, "hyp:tuple", CHECKS, 3000, max_len=4096)
+        engine.pmap(acc, shard_generated, extra=(25000, 3000))
+        engine.fuzz(acc, "hyp:tuple", CHECKS, 20000, max_len=4096)
